@@ -442,19 +442,28 @@ def _resample_case(draw):
 
 @st.composite
 def _deform_case(draw):
-    sd = draw(_space(min_n=2, max_n=5, dtypes=('float64', 'float64',
+    sd = draw(_space(min_n=2, max_n=4, dtypes=('float64', 'float64',
                                                 'float32'),
-                     kinds=('discr',), max_ndim=2))
+                     kinds=('discr',), max_ndim=3))
     ndim = len(sd['shape'])
     size = int(np.prod(sd['shape'], dtype=int))
-    interp = draw(st.sampled_from(['nearest', 'linear', 'linear', 'list']))
-    if interp == 'list':
-        interp = [draw(st.sampled_from(['nearest', 'linear']))
-                  for _ in range(ndim)]
+    form = draw(st.sampled_from(['string', 'list', 'list', 'tuple']))
+    if form == 'string':
+        interp = draw(st.sampled_from(['nearest', 'linear']))
+    else:
+        # every combination of per-axis schemes is equally likely
+        combos = list(itertools.product(['nearest', 'linear'], repeat=ndim))
+        interp = list(draw(st.sampled_from(combos)))
     zero = draw(st.integers(0, 4)) == 0
     disp = [[0 if zero else draw(st.integers(-8, 8)) for _ in range(size)]
             for _ in range(ndim)]
     return {'mode': 'deform', 'space': sd, 'interp': interp, 'disp8': disp,
+            'interp_form': form,
+            'via': draw(st.sampled_from(['function', 'fixed_disp',
+                                         'fixed_disp', 'fixed_templ',
+                                         'fixed_disp_inverse',
+                                         'fixed_disp_adjoint'])),
+            'out': draw(st.booleans()),
             'disp_order': draw(st.sampled_from(['C', 'F', 'strided'])),
             'x': draw(vs.element_descs(sd, orders=('C', 'F', 'strided'),
                                        lo=-100, hi=100, scale=10.0))}
@@ -1365,34 +1374,141 @@ def run_deform(desc):
               'disp-layout:' + order,
               'template-layout:' + desc['x'].get('order', 'C')]
     sig_tail = 'mixed' if mixed else schemes[0]
-    got = linear_deform(x, field, interp=desc['interp'])
+    interp_arg = desc['interp']
+    if desc.get('interp_form') == 'tuple':
+        interp_arg = tuple(interp_arg)
+    via = desc.get('via', 'function')
+    strata.append('via:' + via)
+    strata.append('schemes-by-axis:' + ''.join(sc[0] for sc in schemes))
+    got = linear_deform(x, field, interp=interp_arg)
     if not isinstance(got, np.ndarray) or got.shape != space.shape:
         raise Violation('C15|deform|shape|' + sig_tail,
                         'returned {!r}'.format(getattr(got, 'shape',
                                                        type(got))))
-    if zero and not _same_values(got, xv):
+    sign = 1.0
+    factor = None
+    if via != 'function':
+        got, sign, factor = deform_operator(desc, via, space, x, field,
+                                            interp_arg, schemes, got,
+                                            sig_tail, strata)
+    if zero and factor is None and not _same_values(got, xv):
         raise Violation('C15|deform|identity|' + sig_tail,
                         'zero displacement: ' + _first_diff(got, xv))
     coords = [np.asarray(c, dtype=float) for c in space.grid.coord_vectors]
     pts = _points_array(coords)
     moved = pts.copy()
     for i in range(ndim):
-        moved[i] = moved[i] + np.asarray(field[i].asarray(),
-                                         dtype=float).ravel()
+        moved[i] = moved[i] + sign * np.asarray(field[i].asarray(),
+                                                dtype=float).ravel()
     strict = ref.is_lattice(coords + [moved])
     strata.append('lattice:' + ('strict' if strict else 'generic'))
     flat = got.ravel()
     n = 0
+    site = 'linear_deform' if via == 'function' else \
+        'LinDeformFixedTempl' if via == 'fixed_templ' else 'LinDeformFixedDisp'
     for j in range(pts.shape[1]):
+        g = flat[j]
+        if factor is not None:
+            # adjoint = exp(-div v) * inverse: judge the deformed part
+            fj = factor.ravel()[j]
+            try:
+                alts, mag, dt, fmax = ref.interpolate(
+                    xv, coords, schemes, moved[:, j].tolist(), strict)
+            except ref.OutOfRange:
+                continue
+            eps_val = float(np.finfo(xv.dtype).eps)
+            tol = abs(fj) * ((16 + 2 ** ndim) * eps_val * (mag + fmax) +
+                             2 * dt * fmax) + 1e-300
+            err = min(abs(float(g) - float(fj) * float(a)) for a in alts)
+            if not err <= tol:
+                raise Violation(
+                    'C15|interp|value|{}.adjoint|{}'.format(site, sig_tail),
+                    'adjoint at point {}: got {!r} expected {!r} * {!r} (err '
+                    '{:.3g} tol {:.3g}); schemes {}'.format(
+                        moved[:, j].tolist(), g, fj, float(alts[0]), err, tol,
+                        schemes))
+            n += 1
+            continue
         try:
-            compare_interp(flat[j], xv, coords, schemes, moved[:, j].tolist(),
-                           strict, 'linear_deform|' + sig_tail,
-                           'linear_deform')
+            compare_interp(g, xv, coords, schemes, moved[:, j].tolist(),
+                           strict, site + '|' + sig_tail, site)
         except ref.OutOfRange:
             continue
         n += 1
     return Outcome('ok', strata=strata, nontrivial=True,
                    notes={'deform_comparisons': n})
+
+
+def deform_operator(desc, via, space, x, field, interp_arg, schemes, func_res,
+                    sig_tail, strata):
+    """The deformation operators; returns (values, sign of the displacement
+    seen by the template, multiplicative factor or None)."""
+    from odl.deform import LinDeformFixedDisp, LinDeformFixedTempl
+    ndim = space.ndim
+    if via == 'fixed_templ':
+        op = LinDeformFixedTempl(x, interp=interp_arg)
+        arg, name = field, 'LinDeformFixedTempl'
+    else:
+        op = LinDeformFixedDisp(field, interp=interp_arg)
+        arg, name = x, 'LinDeformFixedDisp'
+    base_op = op
+    sign, factor = 1.0, None
+    if via == 'fixed_disp_inverse':
+        op = op.inverse
+        sign = -1.0
+    elif via == 'fixed_disp_adjoint':
+        base = op
+        op = op.adjoint
+        sign = -1.0
+        div = odl.Divergence(domain=field.space, method='forward',
+                             pad_mode='symmetric')
+        factor = np.exp(-np.asarray(div(field).asarray(), dtype=float))
+        factor = factor.astype(space.dtype).astype(float)
+        inv = getattr(base.inverse, 'interp_byaxis', None)
+        if inv is not None and tuple(inv) != tuple(schemes):
+            raise Violation(
+                'C15|deform|interp-attribute|{}.inverse|{}'.format(
+                    name, sig_tail),
+                'inverse has interp_byaxis {!r}, operator {!r}'.format(
+                    inv, tuple(schemes)))
+    if via == 'fixed_disp_inverse' and \
+            tuple(op.interp_byaxis) != tuple(schemes):
+        raise Violation(
+            'C15|deform|interp-attribute|{}.inverse|{}'.format(name,
+                                                               sig_tail),
+            'inverse has interp_byaxis {!r}, operator {!r}'.format(
+                op.interp_byaxis, tuple(schemes)))
+    res = op(arg)
+    if res not in space:
+        raise Violation('C15|deform|range|{}|{}'.format(name, sig_tail),
+                        'result not in the template space')
+    vals = np.array(res.asarray(), copy=True)
+    if desc.get('out'):
+        out = space.element()
+        out.asarray()[...] = 31
+        r = op(arg, out=out)
+        if r is not out or not _same_values(out.asarray(), vals):
+            raise Violation('C15|deform|out|{}|{}'.format(name, sig_tail),
+                            'op(x, out=y): ' + ('not y' if r is not out else
+                                                _first_diff(out.asarray(),
+                                                            vals)))
+        strata.append('deform-out')
+    if via in ('fixed_disp', 'fixed_templ') and \
+            not _same_values(vals, func_res):
+        # differential: the operator is the function with the same arguments
+        raise Violation(
+            'C15|deform|operator-vs-function|{}|{}'.format(name, sig_tail),
+            'interp={!r}: {}'.format(interp_arg, _first_diff(vals, func_res)))
+    # the documented attributes
+    want_interp = schemes[0] if len(set(schemes)) == 1 else tuple(schemes)
+    if tuple(base_op.interp_byaxis) != tuple(schemes) or \
+            base_op.interp != want_interp:
+        raise Violation(
+            'C15|deform|interp-attribute|{}|{}'.format(name, sig_tail),
+            'interp={!r}: interp_byaxis {!r}, interp {!r} (expected {!r})'
+            ''.format(interp_arg, base_op.interp_byaxis, base_op.interp,
+                      want_interp))
+    return vals, sign, factor
 
 
 # --------------------------------------------------------------------------
@@ -1411,7 +1527,12 @@ def run_case(desc):
 
 
 REQUIRED_STRATA = (
-    ['mode:sample', 'mode:interp', 'mode:resample', 'mode:deform'] +
+    ['mode:sample', 'mode:interp', 'mode:resample', 'mode:deform',
+     'via:function', 'via:fixed_disp', 'via:fixed_templ',
+     'via:fixed_disp_inverse', 'via:fixed_disp_adjoint',
+     'schemes-by-axis:nl', 'schemes-by-axis:ln', 'schemes-by-axis:nnl',
+     'schemes-by-axis:lln', 'schemes-by-axis:nln', 'schemes-by-axis:lnl',
+     'schemes-by-axis:nll', 'schemes-by-axis:lnn', 'deform-out'] +
     ['style:' + s for s in sorted(set(STYLES))] +
     ['api:nearest', 'api:linear', 'api:peraxis', 'schemes:mixed',
      'values:float64', 'values:float32', 'values:complex128',
